@@ -388,6 +388,64 @@ theorem gen_insert_at_eq_model (multi : Bool) (s : St) (h : Heap) (p : Nat) (k v
   | false => exact gen_insert_at_map_eq_model s h p k v c fuel hreach hr hfresh hp hf
   | true => exact gen_insert_at_multi_eq_model s h p k v c fuel hreach hr hfresh hp hf
 
+/-! ### `find`, `count` on a heap that represents a model state -/
+
+theorem nextRepr_of_dlist (h : Heap) : ∀ (es : List (Nat × Int × Int)) (p pv : Nat), DList h p pv (es.map (fun e => e.1)) →
+    (∀ e ∈ es, h.key (e.1 + 1) = e.2.1) → (∀ e ∈ es, e.1 + 1 ≠ h.endItem) → NextRepr h p es := by
+  intro es
+  induction es with
+  | nil => intro p pv hd _ _; exact hd.1
+  | cons e es ih =>
+    intro p pv hd hk he
+    obtain ⟨e1, _, e3⟩ := hd
+    refine ⟨e1, by rw [e1]; exact he e (by simp), by rw [e1]; exact hk e (by simp), ?_⟩
+    exact ih _ _ e3 (fun x hx => hk x (by simp [hx])) (fun x hx => he x (by simp [hx]))
+
+/-- the translated `find` of one header -/
+def findCode (multi : Bool) : Nat → Heap → Nat → Int → Option (Nat × Nat) := if multi then Multi.find else Map.find
+
+/-- **`find(key)` of both containers, by translation**: on every heap that represents a reachable state the loop of the
+    current header terminates (`height + 1` units of fuel), returns the pointer to the item at the position the model's
+    `step s (find k)` returns — `_end` (the sentinel) when the model returns `size` — and makes exactly the model's number
+    of key comparisons. -/
+theorem gen_find_eq_step (multi : Bool) (s : St) (h : Heap) (k : Int) (c fuel : Nat)
+    (hreach : Reach multi s) (hr : ReprSt h s) (hf : s.t.height < fuel) :
+    ∃ out q, step s (.find k) = some (s, out) ∧ out.ret = .it q ∧
+      findCode multi fuel h c k = some ((match s.order[q]? with | some i => i + 1 | none => h.endItem), c + out.cmps) := by
+  obtain ⟨hT, hO, hm⟩ := invs_reach hreach
+  refine ⟨_, _, rfl, rfl, ?_⟩
+  have hnone : s.order[s.size]? = none := by rw [List.getElem?_eq_none_iff, hT.olen]; exact Nat.le_refl _
+  cases multi with
+  | false =>
+    show Map.find fuel h c k = _
+    rw [gen_find_map_eq_model h s.t k c fuel hr.tree hf]
+    simp only [St.findIdx, St.findCmps, hm, Bool.false_eq_true, if_false]
+    cases hfi : Tree.findIdx k s.t with
+    | none => simp only [Option.bind_none, Option.getD_none, hnone]
+    | some j => simp only [Option.bind_some, Option.getD_some, hO.order]; rfl
+  | true =>
+    show Multi.find fuel h c k = _
+    rw [gen_find_multi_eq_model h s.t k c fuel hr.tree hf]
+    simp only [St.findIdx, St.findCmps, hm, if_true]
+    cases hfi : Tree.findMIdx k s.t with
+    | none => simp only [Option.bind_none, Option.getD_none, hnone]
+    | some j => simp only [Option.bind_some, Option.getD_some, hO.order]; rfl
+
+/-- **`MultiMap::count(key)`, by translation**: `find`, then the walk over `next` while the keys are equal — the number the
+    model's `step s (count k)` returns, with exactly its number of key comparisons (`size + 1` units of fuel). -/
+theorem gen_count_eq_step (s : St) (h : Heap) (k : Int) (c fuel : Nat)
+    (hreach : Reach true s) (hr : ReprSt h s) (hf : s.t.height < fuel) (hf2 : s.t.size < fuel) :
+    ∃ out n, step s (.count k) = some (s, out) ∧ out.ret = .num n ∧ Multi.count fuel h c k = some (n, c + out.cmps) := by
+  obtain ⟨hT, hO, hm⟩ := invs_reach hreach
+  have hl : NextRepr h h.beginItem s.t.inorder :=
+    nextRepr_of_dlist h s.t.inorder _ 0 (by have := hr.list; rw [hO.order] at this; exact this) (repr_keys hr.tree)
+      (fun e he => hr.endSep e.1 (Or.inl (by rw [hO.order]; exact List.mem_map_of_mem he)))
+  rw [gen_count_eq_model h s.t k c fuel h.beginItem hr.tree hl hf hf2]
+  simp only [step, hm, if_true, St.findIdx, St.findCmps]
+  cases hfi : Tree.findMIdx k s.t with
+  | none => exact ⟨_, _, rfl, rfl, rfl⟩
+  | some p => exact ⟨_, _, rfl, rfl, by simp only [Nat.add_assoc]⟩
+
 /-! ### non-vacuity -/
 
 /-- the empty container: a heap whose sentinel lives at address 1000 -/
